@@ -888,10 +888,32 @@ class Pass2(CompilePass):
 
     def process_input_pre(self, node):
         for lvalue in node.var_list:
-            if not lvalue.type.is_builtin:
+            if not isinstance(lvalue, Lvalue) or lvalue.is_const:
+                # a CONST: its name has already been replaced by its
+                # value, which is nothing INPUT could assign to
+                raise CompileError(
+                    EC.DUPLICATE_DEFINITION,
+                    'Cannot INPUT into a constant',
+                    node=lvalue)
+            if not lvalue.type.is_builtin or lvalue.type.is_array:
+                # (a whole array is no target either: INPUT a after
+                # DIM a(5))
                 raise CompileError(
                     EC.TYPE_MISMATCH,
                     'Input can only have builtin types',
+                    node=lvalue)
+
+    def process_read_pre(self, node):
+        for lvalue in node.var_list:
+            if not isinstance(lvalue, Lvalue) or lvalue.is_const:
+                raise CompileError(
+                    EC.DUPLICATE_DEFINITION,
+                    'Cannot READ into a constant',
+                    node=lvalue)
+            if not lvalue.type.is_builtin or lvalue.type.is_array:
+                raise CompileError(
+                    EC.TYPE_MISMATCH,
+                    'READ can only have builtin types',
                     node=lvalue)
 
     def process_view_print_pre(self, node):
